@@ -278,11 +278,23 @@ func (h *History) CheckC12(res *Result) []Violation {
 			break
 		}
 	}
+	// a force stop during start-up can reach a plugin's Teardown while its Open is still in
+	// progress, so the open of an instance can be logged after its teardown: that is the forced
+	// run's own instance, not a restart
+	torn := map[string]bool{}
+	for i := 0; i <= termIdx && i < len(h.Events); i++ {
+		if e := h.Events[i]; e.Kind == EvSrcTeardown {
+			torn[fmt.Sprintf("%s/%d", e.Comp, e.Inst)] = true
+		}
+	}
 	for i := termIdx + 1; i < len(h.Events); i++ {
 		if started >= 0 && i > started {
 			break
 		}
 		e := h.Events[i]
+		if e.Kind == EvSrcOpen && torn[fmt.Sprintf("%s/%d", e.Comp, e.Inst)] {
+			continue
+		}
 		if e.Kind == EvSrcOpen || (e.Kind == EvStatus && (strings.HasPrefix(e.Info, "Running") || strings.HasPrefix(e.Info, "Recovering"))) {
 			out = append(out, Violation{Prop: "C12", Key: "C12/restarted-after-force-stop/" + eng, Index: i,
 				Detail: fmt.Sprintf("%s after the pipeline was force stopped and without a user start", e.String())})
